@@ -147,6 +147,13 @@ def _cob_pauli_rep_wrong(e):
     return any(_cob_pauli_rep_wrong(x) for x in e[1:] if isinstance(x, list) and x and isinstance(x[0], str) and x[0] in X._KINDS)
 
 
+def _cctrl_over_controlled(e):
+    """A Controlled(...) class-constructor node whose base is itself a controlled Operator2 gate (CNOT, CRX, qp.ctrl(...))."""
+    if e[0] == "cctrl" and (e[1][0] == "ctrl" or (e[1][0] == "L" and e[1][1] in ("CNOT01", "CRX10"))):
+        return True
+    return any(_cctrl_over_controlled(x) for x in e[1:] if isinstance(x, list) and x and isinstance(x[0], str) and x[0] in X._KINDS)
+
+
 def _sum_of_2pi_shifted(e):
     """Failure-class test: a sum whose summands include both RX(g1) and RX(g1 + 2pi) = -RX(g1) (equal hashes: rotation angles are
     hashed modulo 2pi; Sum.simplify merges summands by hash alone)."""
@@ -158,6 +165,8 @@ def _sum_of_2pi_shifted(e):
 
 
 def _mismatch_class(stage, e, op, sh):
+    if stage == "simplify-changes-map" and _cctrl_over_controlled(e):
+        return "simplify-changes-map:v1-Controlled-over-controlled-Operator2-base"
     if stage == "simplify-changes-map" and _sum_of_2pi_shifted(e):
         return "simplify-changes-map:Sum-merges-summands-with-equal-hash(angle+2pi)"
     if _cob_pauli_rep_wrong(e):
@@ -169,6 +178,8 @@ def _mismatch_class(stage, e, op, sh):
 
 def _raise_class(stage, exc, e, sh):
     msg = str(exc)
+    if stage == "simplify" and isinstance(exc, ValueError) and "control_values should be the same length" in msg and _cctrl_over_controlled(e):
+        return "simplify-raises:ValueError:v1-Controlled-over-controlled-Operator2-base"
     if stage == "simplify" and _sum_of_2pi_shifted(e):
         return "simplify-raises:Sum-merges-summands-with-equal-hash(angle+2pi)"
     if isinstance(exc, TypeError) and ("'Exp' object is not iterable" in msg or "object of type 'Exp' has no len()" in msg) and _pow_over(e, ("exp",)):
@@ -316,6 +327,10 @@ def families(tier):
     F["depth3:small o binary(tiny(l4), tiny(l4))"] = [f([b, x, y]) for b in ("prod", "sum", "cob") for x in t4 for y in t4 for f in small]
     b4 = [[b, x, y] for b in ("prod", "sum") for x in L(X.LEAF4) for y in L(X.LEAF4)]
     F["depth3:binary(tiny(binary(l4,l4)), l4)"] = [[b, h(x), lf] for b in ("prod", "sum", "cob") for x in b4 for h in tiny for lf in L(X.LEAF4)]
+    cc = [(cw, cv) for cw, cv in (([2], [1]), ([2], [0]), ([2, 3], [1, 0]))]
+    inner_cc = L(X.LEAF_ALL + ["CRX10"]) + [h(lf) for lf in L(X.LEAF4) for h in tiny] + [["prod", a, b] for a in L(X.LEAF4) for b in L(X.LEAF4)]
+    F["Controlled class constructor over leaves / tiny / products (+ outer tiny)"] = (
+        [["cctrl", x, cw, cv] for x in inner_cc for cw, cv in cc] + [g(["cctrl", x, [2], [0]]) for x in inner_cc for g in tiny])
     if tier == "thorough":
         F["depth3:full o small o small on 13 leaves"] = [f(g(h(lf))) for lf in L(X.LEAF_ALL) for h in small for g in small for f in full]
         F["depth4:small o tiny o tiny o tiny on 4 leaves"] = [f(g(h(i(lf)))) for lf in L(X.LEAF4) for i in tiny for h in tiny for g in tiny for f in small]
